@@ -438,6 +438,35 @@ def s5(chk: Check, proj: Project) -> None:
         txt = norm(lp)
         ok = "_copy_block_context(" in txt and "['extends_context'].copy()" in txt
         chk.ob("S5", "util.context:snapshot_context:copies-block-and-extends", m.loc(lp), ok, "block_context is copied per layer with _copy_block_context and extends_context with .copy()" if ok else "the render-context layers are not deep enough copied (block_context / extends_context shared)")
+    # the snapshot has every layer of the original: when the walk stops at a layer that is already a copy, the reused prefix
+    # INCLUDES that layer (it was not added by the loop before the break)
+    n_re = 0
+    for lp in [x for x in f.body if isinstance(x, ast.For)]:
+        idxv = norm(lp.target) if isinstance(lp.target, ast.Name) else None
+        layer_vars = {norm(t) for st0 in lp.body if isinstance(st0, ast.Assign) and idxv is not None and isinstance(st0.value, ast.Subscript) and norm(st0.value.slice) == idxv for t in st0.targets}
+        for st in [x for x in ast.walk(lp) if isinstance(x, ast.Assign) and isinstance(x.value, ast.BinOp) and isinstance(x.value.op, ast.Add)]:
+            parts = []
+            todo_ = [st.value]
+            while todo_:
+                e_ = todo_.pop(0)
+                if isinstance(e_, ast.BinOp) and isinstance(e_.op, ast.Add):
+                    todo_ = [e_.left, e_.right] + todo_
+                else:
+                    parts.append(e_)
+            sl = [p_ for p_ in parts if isinstance(p_, ast.Subscript) and isinstance(p_.slice, ast.Slice) and norm(p_.value).endswith(".dicts")]
+            if len(sl) != 1:
+                continue
+            n_re += 1
+            up = sl[0].slice.upper
+            extra = [p_ for p_ in parts if isinstance(p_, ast.List) and len(p_.elts) == 1 and any(isinstance(y, ast.Name) and y.id in layer_vars for y in ast.walk(p_))]
+            incl = up is not None and idxv is not None and norm(up) in (f"{idxv} + 1", f"1 + {idxv}") and not extra
+            recopied = up is not None and idxv is not None and norm(up) == idxv and len(extra) == 1
+            okr = (incl or recopied) and sl[0].slice.lower is None
+            what = "render-context" if "render_context" in norm(sl[0].value) else "context"
+            chk.ob("S5", f"util.context:snapshot_context:{what}-reuse-includes-the-copied-layer", m.loc(st), okr,
+                   (f"the reused prefix is `{norm(sl[0])}`: every layer up to and including the already copied one" if incl else f"`{norm(sl[0])}` plus a fresh copy of the layer the walk stopped at") if okr else
+                   f"`{short(st)}` reuses `{norm(sl[0])}`: the layer the walk stopped at (already a copy, so the loop adds nothing for it) is left out - the snapshot of a nested component lacks the parent component's {what} layer (its BlockContext), and a {{% block %}} the child template overrides inside a nested component's fill renders the base content on an {{% extends %}} page")
+    chk.floor("S5-reuse", n_re, 2)
     bm, bf = proj.func("util.context", "_copy_block_context")
     okb = any(isinstance(s, ast.Assign) and ".blocks[" in norm(s.targets[0]) and norm(s.value).endswith(".copy()") for s in stmts(bf))
     chk.ob("S5", "util.context:_copy_block_context:copies-lists", bm.loc(bf), okb, "each block list is copied")
